@@ -143,6 +143,60 @@ def h_consume(ctx):
     return Outcome(f"{kk}:{'ok' if r.ok else 'rej:' + r.etype}", vs, nontrivial=(sname, family, i, kk, kv, path, pos, as_callable))
 
 
+def h_consume_multi(ctx):
+    """General JSON whose recipients / signatures name different members of one key set (given directly or via a callable)."""
+    from joserfc import jws
+    from joserfc.errors import InvalidKeyIdError
+    sname = ctx.choose("set", ["oct-oct-rsa", "five-mixed", "two-ec", "x-and-rsa"])
+    ms = members(sname)
+    family = ctx.choose("family", ["jws", "jwe"])
+    cands = [x for x in range(len(ms)) if usable_for(ms[x], "sig" if family == "jws" else "enc")]
+    if len(cands) < 2:
+        return Outcome("n/a", [], nontrivial=None)
+    import itertools
+    pair = ctx.choose("members", list(itertools.permutations(cands, 2)))
+    as_callable = ctx.choose("set_given", ["directly", "callable"]) == "callable"
+    twist = ctx.choose("twist", ["none", "second-kid-unknown", "second-kid-is-first"])
+    arg, ks = build_set(sname, private=True, as_callable=as_callable)
+    kids = [ms[pair[0]]["kid"], ms[pair[1]]["kid"]]
+    if twist == "second-kid-unknown":
+        kids[1] = "nobody"
+    elif twist == "second-kid-is-first":
+        kids[1] = kids[0]
+    if family == "jws":
+        sigs = []
+        for i, kid in zip(pair, kids):
+            m = ms[i]
+            alg = SIG_ALG[m["jwk"]["kty"]]
+            sigs.append(rjws.sign_member({"alg": alg, "kid": kid}, None, b'{"a":1}', m["jwk"]))
+        tok = {"payload": b64.enc(b'{"a":1}'), "signatures": sigs}
+        r = scen.jws_consume("general", tok, arg, sorted(set(SIG_ALG.values())))
+        good = r.ok and r.value[0] == b'{"a":1}'
+    else:
+        recs = []
+        for i, kid in zip(pair, kids):
+            m = ms[i]
+            recs.append({"jwk": m["jwk"] if m["jwk"]["kty"] == "oct" else rjwk.public_of(m["jwk"]), "header": {"alg": ENC_ALG[m["jwk"]["kty"]].replace("ECDH-ES", "ECDH-ES+A128KW").replace("+A128KW+A128KW", "+A128KW"), "kid": kid}})
+        tok = rjwe.encrypt({"enc": "A128GCM"}, b"secret", recs, form="general", rand=rjwe.Drbg(repr((sname, pair, twist)).encode()))
+        r = scen.jwe_decrypt(tok, arg, sorted(set(ENC_ALG.values())) + ["A128GCM", "ECDH-ES+A128KW"])
+        good = r.ok and r.value[0] == b"secret"
+    vs = []
+    what = f"{family} general JSON, set={sname}, entries made with members {pair}, kids {kids}, set given {'via callable' if as_callable else 'directly'}"
+    same_material = ms[pair[0]]["jwk"] == ms[pair[1]]["jwk"]
+    if twist == "none":
+        if not good:
+            vs.append(viol(f"{family} general JSON whose entries name different members of the key set is not consumed ({'callable' if as_callable else 'direct'})", f"{what}: {r.exc!r}"))
+    elif twist == "second-kid-unknown":
+        if r.ok:
+            vs.append(viol(f"{family} general JSON with an entry naming an unknown kid is accepted", what))
+        elif not isinstance(r.exc, InvalidKeyIdError):
+            vs.append(viol(f"{family} general JSON: unknown kid of the second entry is not reported as invalid-key-id ({type(r.exc).__name__})", f"{what}: {r.exc!r}"))
+    else:
+        if r.ok and not same_material:
+            vs.append(viol(f"{family} general JSON: an entry made with one member is accepted under another member's kid", what))
+    return Outcome(f"multi:{twist}:{'ok' if r.ok else 'rej:' + r.etype}", vs, nontrivial=(sname, family, pair, as_callable, twist))
+
+
 def h_produce(ctx):
     from joserfc.jwk import KeySet
     sname = ctx.choose("set", list(SETS))
@@ -491,7 +545,8 @@ class SetModel:
         return out
 
     def canon(self, st):
-        return (self.kind, canon_obj(st["ks"]), len(st["removed"]), st["next"])
+        from ..history import canon_state
+        return (self.kind, canon_state(st["ks"], prefix="joserfc.no-module-state"), len(st["removed"]), st["next"])
 
     def bucket(self, obs):
         return obs["op"] + (":bad" if obs["viol"] else "")
@@ -518,6 +573,7 @@ def set_histories(tier):
 _ps = Part("set-import-export", h_sets, split_depth=2)
 PARTS = [
     Part("consume-by-kid", h_consume, split_depth=3),
+    Part("consume-several-entries", h_consume_multi, split_depth=3),
     Part("produce-from-set", h_produce, split_depth=3),
     _ps,
     Part("shared-set-histories", custom=set_histories, engine="E2"),
